@@ -448,9 +448,10 @@ func (g *cacheRig) applyChecked(r *Res, pre cstate, F *kit.Term, op e1op, filter
 			stats["noop:unchanged-relist"]++
 		}
 	}
-	if !ok {
-		return nil, nF
-	}
+	// on a content mismatch the walk continues from what the cache really holds
+	// (the violation is recorded; the events are still judged, so that C02 keeps
+	// its coverage on a tree that breaks C01)
+	_ = ok
 	post := cstate{}
 	for k, o := range postObjs {
 		p := strings.SplitN(k, "/", 2)
